@@ -18,6 +18,7 @@ import (
 	"encoding/json"
 	"fmt"
 	"os"
+	"regexp"
 	"strings"
 	"time"
 )
@@ -195,7 +196,7 @@ func (s *cliSim) cisco() {
 	if scn.Banner != "" {
 		s.out(scn.Banner + "\n")
 	}
-	s.out("netspoc@10.1.2.3's password: ")
+	s.out("admin@10.1.2.3's password: ")
 	l, ok := s.read()
 	if !ok {
 		return
@@ -354,10 +355,14 @@ func (s *cliSim) linux() {
 		case line == "hostname -s":
 			s.out(scn.Hostname + "\n")
 		case strings.HasPrefix(line, "grep '") && strings.HasSuffix(line, "' /etc/issue"):
+			// (the device's grep is taken to understand the regexp as Go does; the harness only uses
+			// patterns that mean the same to grep)
 			re := strings.TrimSuffix(strings.TrimPrefix(line, "grep '"), "' /etc/issue")
-			for _, l := range strings.Split(scn.Issue, "\n") {
-				if l != "" && re != "" && strings.Contains(l, re) {
-					s.out(l + "\n")
+			if rx, err := regexp.Compile(re); err == nil && re != "" {
+				for _, l := range strings.Split(scn.Issue, "\n") {
+					if l != "" && rx.MatchString(l) {
+						s.out(l + "\n")
+					}
 				}
 			}
 		case line == "ip route show":
